@@ -35,18 +35,39 @@ structure KindCfg where
   variadicByName : Bool := true
   /-- positional-only parameters are handed to the function by keyword like all others (pinned: `true`) -/
   posOnlyByKeyword : Bool := true
+  /-- a parameter may be NAMED like a keyword of `Node.run` (only the keywords of `Node.__init__` are refused;
+  pinned: `true`) -/
+  runNamesFree : Bool := true
   deriving Repr, DecidableEq
 
-def KindCfg.pinned : KindCfg := { variadicByName := true, posOnlyByKeyword := true }
-def KindCfg.repaired : KindCfg := { variadicByName := false, posOnlyByKeyword := false }
+def KindCfg.pinned : KindCfg := { variadicByName := true, posOnlyByKeyword := true, runNamesFree := true }
+def KindCfg.repaired : KindCfg := { variadicByName := false, posOnlyByKeyword := false, runNamesFree := false }
+
+/-- `node(*args, **kwargs)` is `self.pull(*args, run_parent_trees_too=True, **kwargs)`, which is
+`self.run(*args, run_data_tree=True, run_parent_trees_too=…, fetch_input=True, check_readiness=True,
+emit_ran_signal=False, **kwargs)`: a keyword of the caller with one of these five names collides with the one
+written there (`TypeError: got multiple values for keyword argument`) -/
+def runFlagsClash : List String :=
+  ["run_data_tree", "run_parent_trees_too", "fetch_input", "check_readiness", "emit_ran_signal"]
+/-- … and the sixth keyword of `Node.run` is not written there: the caller's value is taken for the FLAG and never
+reaches `set_input_values` -/
+def runFlagSilent : String := "raise_run_exceptions"
+def runKeywords : List String := runFlagSilent :: runFlagsClash
+
+/-- why a parameter keeps the function from becoming a node class, if anything does -/
+def KParam.refusal (cfg : KindCfg) (p : KParam) : Option DefErr :=
+  if initKeywords.contains p.name then some .reservedName
+  else if !cfg.runNamesFree && runKeywords.contains p.name then some .reservedName
+  else if !cfg.variadicByName && p.kind.variadic then some .variadic
+  else none
 
 /-- `_build_inputs_preview` over parameters of any kind: label and default of every input, or the refusal -/
 def previewKinds (cfg : KindCfg) : List KParam → Except DefErr (List (String × Val))
   | [] => .ok []
   | p :: ps =>
-    if initKeywords.contains p.name then .error .reservedName
-    else if !cfg.variadicByName && p.kind.variadic then .error .variadic
-    else (previewKinds cfg ps).map fun r => (p.name, p.dflt.getD .nd) :: r
+    match p.refusal cfg with
+    | some e => .error e
+    | none => (previewKinds cfg ps).map fun r => (p.name, p.dflt.getD .nd) :: r
 
 /-- the signature as the kind-blind run-time part sees it -/
 def sigOf (ps : List KParam) : Sig := ps.map fun p => { name := p.name, dflt := p.dflt }
@@ -86,7 +107,10 @@ def pyArgsK (ps : List KParam) (a1 : List Val) (k1 : List (String × Val)) (a2 :
 kind-blind gate, then `node_function(**inputs)` — which Python refuses when a positional-only parameter is
 among them (pinned); repaired: positional-only values are passed positionally -/
 def callK (cfg : KindCfg) (F : List Val → Val) (ps : List KParam) (n : Node) (args : List Val)
-    (kw : List (String × Val)) : Node × Outcome :=
+    (kw0 : List (String × Val)) : Node × Outcome :=
+  -- what `__call__ → pull → run` does with the caller's keywords before `set_input_values` sees them
+  if kw0.any (fun q => runFlagsClash.contains q.1) then (n, .typeError) else
+  let kw := kw0.filter fun q => q.1 != runFlagSilent
   match gate n args kw with
   | (n1, .error o) => (n1, o)
   | (n1, .ok vs) =>
